@@ -94,6 +94,10 @@ class StreamGen:
                 ntid = rng.choice(tids + [0x300])
                 pid = rng.choice(pids + [55])
                 evs.append([tid, c['TRACE_DATA_NEWTHREAD'], 0, [ntid, pid, 0, rng.getrandbits(16)]])
+                if rich and rng.random() < 0.5:
+                    # between the data record and its name string another thread's sampler record re-declares the new thread
+                    other = rng.choice([t for t in tids if t != tid] or [tid])
+                    evs.append([other, c['PERF_THD_Data'], 0, [rng.choice(pids + [91]), ntid, 0x5000, 1]])
                 evs.append([tid, c['TRACE_STRING_NEWTHREAD'], 0, name_words(rng.choice(names[:5]))])
             elif r < 0.86:
                 evs.append([tid, c['TRACE_DATA_THREAD_TERMINATE_PID'], 0, [rng.choice(pids + [55]), rng.getrandbits(16), 0, 0]])
